@@ -15,6 +15,11 @@ CHECKS = {
         technique="TLA+ graph definitions (reachability, dominance as 'unreachable once a is removed', checked against simple-path enumeration) + both algorithms as TLC state machines from every small graph; real DominanceInfo/PostOrderIterator results on all graphs judged by TLC",
         text="TLC starts the transcribed dominator fixpoint and post-order iterator from every graph with 3 (thorough: 4) blocks and out-degree <=2 and checks them against the declarative definitions; the real code is run on every graph with <=3 blocks (thorough: <=4, 194k graphs) plus seeded random graphs up to 9 blocks, and TLC judges each recorded dominance relation and iteration order against CFG.tla.",
         note="Trusted: CFG.tla's definitions (cross-checked by TLC against literal simple-path enumeration), the region builder (test.termop terminators). Graphs beyond 4 blocks are sampled, not enumerated."),
+    "C20": dict(
+        category="model_checking", design_ref="DESIGN.md §3.7, §4 C20",
+        technique="TLA+ symbolic register-file semantics (XOR algebra, NaN-boxing fmv.s, hard-wired zero) + simultaneous-assignment requirement; sequences emitted by the real pass for every small move graph executed and judged by TLC",
+        text="Every move graph over 4 (thorough: 5) integer registers incl. zero as source, every graph over 3 (thorough: 4) float registers x both widths, each with every small free-register set, plus seeded mixed graphs (shuffled operand order, zero destinations, distinct SSA values per use) is lowered by the real riscv-lower-parallel-mov; TLC executes the emitted mv/fmv/xor sequence on a symbolic register file and checks that every destination holds its source's old value and no other register changed. Exhaustive for the stated bound.",
+        note="Trusted: the instruction semantics in ParallelMov.tla; the extraction of the emitted ops. Four genuine defects of the unchanged tree are listed as open findings (keyed by root-cause class + registers TLC found wrong); a pass failure/crash is recorded as divergence, not violation."),
 }
 
 NOT_APPLICABLE = {
